@@ -539,9 +539,11 @@ def interp_oracle(c, mesh, excl, m, name):
             fails.append((sig, f'{name}[{y},{x}] = {m[y, x]!r} but the {c["interp"]} interpolation of the mesh gives '
                           f'{ref[y, x]!r} (mesh min {mesh.min()!r}, ptp {np.ptp(mesh)!r})'))
     spread = float(np.ptp(mesh))
-    if spread > 1e3 * _ulp(mesh.dtype) * amax and not cov.any() and (~cov).sum() > 1 and np.ptp(m) == 0 \
-            and not (idw and (~excl).sum() == 1):
-        fails.append((sig, f'{name} is constant ({m.flat[0]!r}) although the mesh is not (ptp {spread!r})'))
+    # BkgIDWInterpolator upsamples from the KEPT cells only (excluded cells, filled and median-filtered, are not
+    # sources), so for IDW the map must vary only when the kept cells do
+    src_spread = float(np.ptp(mesh[~excl])) if idw and (~excl).any() else spread
+    if src_spread > 1e3 * _ulp(mesh.dtype) * amax and not cov.any() and (~cov).sum() > 1 and np.ptp(m) == 0:
+        fails.append((sig, f'{name} is constant ({m.flat[0]!r}) although the mesh is not (ptp {src_spread!r})'))
     if box[0] % 2 and box[1] % 2 and spread != 0:
         tol = (0.0 if idw else 64 * _ulp(m.dtype) * amax)
         for (i, j) in np.argwhere(~excl if idw else np.ones(mesh.shape, bool)):
@@ -1162,9 +1164,13 @@ def _cmp_nested(a, b, tol):
 
 # --------------------------------------------------------------------------
 def run(ctx):
-    ctx.build_with_translator(FILES, after_files=['C11S_Model.v', 'C11S_Proofs.v', 'C11S_Properties.v'])   # sigma-clip model + equivariance
-    from . import c11s
+    # C11S: sigma-clip model + equivariance; C11E: the background / RMS estimator classes as instances of the
+    # section variables of C11 (affine laws, constant case, hull)
+    ctx.build_with_translator(FILES, after_files=['C11S_Model.v', 'C11S_Proofs.v', 'C11S_Properties.v',
+                                                  'C11E_Model.v', 'C11E_Proofs.v', 'C11E_Properties.v'])
+    from . import c11s, c11e
     c11s.run_sigma_clip_correspondence(ctx, 300 if ctx.tier == 'quick' else 3000)
+    c11e.run_estimator_correspondence(ctx, 300 if ctx.tier == 'quick' else 3000)
     quick = ctx.tier == 'quick'
     ctx.cov['rule'] = (
         'K: random images 1..12 x 1..12 on the quarter-integer lattice (float64 -> bottleneck dispatch, float32 -> '
